@@ -1616,3 +1616,10 @@ mod tests {
         );
     }
 }
+
+#[cfg(librasn_compiler_verif)]
+#[doc(hidden)]
+#[allow(dead_code, unused_imports, clippy::all)]
+pub mod verif_hook {
+    include!(concat!(env!("LIBRASN_VERIF_DIR"), "/hooks/per_visible.rs"));
+}
